@@ -384,6 +384,21 @@ def run(tier, seed):
                    "int8 wrap-around: entries are modelled as non-negative mathematical integers; max bit-width observed is reported"]
     ck.assumptions += ["entries are 0/1 (documented precondition)"]
     ck.validated += _translator_validation(seed)
+    cands = []
+    early0 = []
+    big = [(36, 24), (24, 36), (34, 24), (33, 8), (16, 16), (20, 24), (12, 24), (24, 12)]
+    ljobs = [(mm, nn, 4, seed * 100 + i * 7 + t) for i, (mm, nn) in enumerate(big) for t in range(3 if tier == "quick" else 12)]
+    for job, r in harness.pmap(_large_job, ljobs):
+        res = core.Result.from_json(r["res"])
+        ck.add("library-size shape %dx%d" % job[:2], res, sample=0)
+        for c in r["cands"][:2]:
+            early0.append(("%s %dx%d %s" % (c["label"][:60], c["m"], c["n"], hash(str(c["A"])) & 0xFFFF), c, "%s on a %dx%d matrix" % (c["label"], c["m"], c["n"])))
+    bad, n_ok = _dtype_sweep(seed)
+    ck.validated += n_ok
+    early = []
+    for c in bad[:5]:
+        early.append(("dtype %s %dx%d %s" % (c["dtype"], c["m"], c["n"], c["A"]), c, c["label"]))
+    ck.candidates((early0 + early)[:12])      # reported at once: these families are the cheap, machine-level ones
     jobs = []
     for (m, n, nominal) in [(m, n, "int8") for m, n in shapes] + [(m, n, "int64") for m, n in shapes64]:
         # partition big shapes on the first column(s): 2^p sub-jobs, each explores its share of the matrices
@@ -392,7 +407,6 @@ def run(tier, seed):
         for bits in itertools.product([0, 1], repeat=p):
             jobs.append((m, n, nominal, tuple(zip(cells, bits))))
     jobs.sort(key=lambda j: -(j[0] * j[1]))
-    cands = []
     twins = True
     for job, r in harness.pmap(_shape_job, jobs):
         res = core.Result.from_json(r["res"])
@@ -409,17 +423,6 @@ def run(tier, seed):
         ck.add("sequence %s then %s" % job, res, sample=0)
         for c in r["cands"][:3]:
             cands.append(("%s first=%s A=%s" % (c["label"][:70], c["first"], c["A"]), c, "%s: after the routines ran on %s, A=%s" % (c["label"], c["first"], c["A"])))
-    big = [(36, 24), (24, 36), (34, 24), (33, 8), (16, 16), (20, 24), (12, 24), (24, 12)]
-    ljobs = [(mm, nn, 4, seed * 100 + i * 7 + t) for i, (mm, nn) in enumerate(big) for t in range(3 if tier == "quick" else 12)]
-    for job, r in harness.pmap(_large_job, ljobs):
-        res = core.Result.from_json(r["res"])
-        ck.add("library-size shape %dx%d" % job[:2], res, sample=0)
-        for c in r["cands"][:2]:
-            cands.append(("%s %dx%d %s" % (c["label"][:60], c["m"], c["n"], hash(str(c["A"])) & 0xFFFF), c, "%s on a %dx%d matrix" % (c["label"], c["m"], c["n"])))
-    bad, n_ok = _dtype_sweep(seed)
-    ck.validated += n_ok
-    for c in bad[:5]:
-        cands.append(("dtype %s %dx%d %s" % (c["dtype"], c["m"], c["n"], c["A"]), c, c["label"]))
     lim = 3 if tier == "quick" else 4
     for job, r in harness.pmap(_ops_job, [(m, n) for m in range(1, lim + 1) for n in range(1, lim + 1)]):
         res = core.Result.from_json(r["res"])
